@@ -905,6 +905,19 @@ def h_asarray(ev, name, pos, kw, ctx, t):
               meta=('view', name, x))
 
 
+def h_memoised(ev, name, pos, kw, ctx, t):
+    """marker the builder puts around the value of a memoising helper it evaluated in place: one object is handed to every call with equal arguments"""
+    x = pos[0] if pos else UNKNOWN
+    q = const_of(pos[1]) if len(pos) > 1 else '?'
+    tag = frozenset([('global', str(q).split('::')[0], f'<results memoised by {str(q).split("::")[-1]}>')])
+
+    def shared(v):
+        if not isinstance(v, AV):
+            return v
+        return v.replace(alias=v.alias | tag, tup=tuple(shared(y) for y in v.tup) if v.tup is not None else None)
+    return shared(x)
+
+
 def h_fresh(kind=ARR, sign=None, dtype=None):
     def h(ev, name, pos, kw, ctx, t):
         vs = list(pos) + list(kw.values())
@@ -1057,6 +1070,7 @@ def reg(names, h):
         TABLE[n] = h
 
 
+reg('pbv.memoised', h_memoised)
 reg('numpy.exp', h_elementwise('pos'))
 reg('numpy.log numpy.log10 numpy.log2 numpy.angle numpy.cos numpy.sin numpy.tan numpy.arctan2 numpy.sign numpy.floor numpy.ceil numpy.around numpy.round '
     'numpy.nan_to_num numpy.negative scipy.special.ive scipy.special.hyp1f1 scipy.special.gammaln scipy.special.perm numpy.cumsum numpy.cumprod '
